@@ -45,6 +45,8 @@ class C17(Prop):
     # flavours), guard drop, the blanket impl for cells — closed forms that are the clauses of Sub/Composite.lean;
     # Subscriber (the slot as a subscription) from src/subscriber.rs
     tie_modules = {
+        # critical sections read off the source (rs2lean/src/holds.rs): which calls are made while which shared cell is held — the policies (P2: the composite tears its children down with its cell released; P6: the handle section)
+        "RxModel.GenTie.Holds": [],
         "RxModel.GenTie.Subscription": [],
         "RxModel.GenTie.Subscriber": [],
         "RxModel.GenTie.SubscriberThreads": [],
